@@ -444,6 +444,7 @@ func (cc *Conn) pushToReceivedMessageQueue(r *pool.Message) {
 	if cc.handleSignals(r) {
 		return
 	}
+	verifHook("enqueue", cc)
 	select {
 	case cc.receivedMessageReader.C() <- r:
 	case <-cc.Context().Done():
